@@ -31,6 +31,7 @@ type Judge struct {
 	Ignore    []string   `json:"ignore,omitempty"` // top-level fields left out of message comparisons
 	Frame     *FrameInfo `json:"frame,omitempty"`
 	Prior     int        `json:"prior,omitempty"` // unread bytes that were in the buffer before the frame
+	Steps     []int      `json:"steps,omitempty"` // same_as_step: every listed step is compared
 }
 
 type ReplayReq struct {
@@ -375,6 +376,15 @@ func judge(j Judge, res []RunResult, runErr error) (confirmed bool, observed any
 		}
 		if r.Err != nil || r2.Err != nil {
 			return true, map[string]any{"err": r.Err, "err_first": r2.Err}
+		}
+		if len(j.Steps) > 0 {
+			for _, si := range j.Steps {
+				ri := get(si)
+				if ri.Panic != nil || ri.Err != nil || !strings.HasPrefix(ri.Buf, j.ExpectHex) || ri.Buf[len(j.ExpectHex):] != r2.Buf {
+					return true, map[string]any{"step": si, "appended": ri.Buf, "into_empty": r2.Buf, "err": ri.Err, "panic": ri.Panic}
+				}
+			}
+			return false, map[string]any{"into_empty": r2.Buf}
 		}
 		if !strings.HasPrefix(r.Buf, j.ExpectHex) {
 			return true, map[string]any{"buf": r.Buf, "note": "prior bytes altered"}
